@@ -56,9 +56,23 @@ pub fn bare_conn(ctx: &Ctx, host: &str, port: u16, peer: SocketAddr) -> (Arc<Ice
 }
 
 pub async fn layer_ep(ctx: &Ctx, host: &str, peer_host: &str, is_client: bool, cert_idx: usize, expected_fp: Option<String>) -> LayerEp {
+    layer_ep_chain(ctx, host, peer_host, is_client, cert_idx, None, expected_fp).await
+}
+
+/// As `layer_ep`; `extra = Some((idx, prepend))` makes the endpoint present a certificate list of two entries: its own
+/// certificate plus pool certificate `idx` (whose private key it does NOT use) after or before it.
+pub async fn layer_ep_chain(ctx: &Ctx, host: &str, peer_host: &str, is_client: bool, cert_idx: usize, extra: Option<(usize, bool)>, expected_fp: Option<String>) -> LayerEp {
     let peer = addr(peer_host, 5000);
     let (conn, sock_tx, pump, me) = bare_conn(ctx, host, 5000, peer);
-    let cert = crate::sim::cert(cert_idx);
+    let mut cert = crate::sim::cert(cert_idx);
+    if let Some((idx, prepend)) = extra {
+        let other = crate::sim::cert(idx).certificate.remove(0);
+        if prepend {
+            cert.certificate.insert(0, other);
+        } else {
+            cert.certificate.push(other);
+        }
+    }
     let (dtls, incoming, runner) = DtlsTransport::new(conn.clone(), cert, is_client, 2048, expected_fp).await.expect("DtlsTransport::new");
     let run = tokio::spawn(vh::wrap_task(runner));
     ctx.keys.lock().unwrap().push(KeySrc { host: me.ip(), dtls: dtls.clone(), is_client, role_unknown: false });
